@@ -329,6 +329,9 @@ def check_C06(tier, seed):
     # honest runs for the buffering bound and credit-only-for-consumed clauses
     r2 = random.Random(seed * 7919 + 6)
     honest = [scen.flow_script(r2, i) for i in range(500 if quick else 20000)]
+    # datagram receive buffer: tiny buffers, datagrams of every size relative to it, late readers
+    import scen_c16
+    honest += [scen_c16.overflow_script(r2, len(honest) + i) for i in range(200 if quick else 4000)]
     mcs = [("Credit.tla", "MC_Credit.cfg" if quick else "MC_Credit3.cfg")]
     res = generic("C06", tier, seed, mcs, scripts,
                   [("hostile", "HostileTrace.tla", "HostileTrace.cfg")],
